@@ -16,6 +16,11 @@
 (*          singles out none); {"unexplained"} if no trigger is present or the fully neutralised  *)
 (*          run still fails (its clauses are `residual`).                                         *)
 (* NOTE lines carry the observations that are not part of the property.  Verdicts are total.      *)
+(* Special method names (StubGen.tla NextD): the cases of the families dunder-* and of the         *)
+(* dunder simulation are judged by the same clauses - fixpoint (a name the reader gives a kind by  *)
+(* NAME while the printer spells the kind out, or the reverse, changes the re-printed text),      *)
+(* asteq, and orig, whose Compare event is taken against the declarations StubGen.tla says the     *)
+(* text denotes under its pinned name convention (ImplicitStatic / ImplicitClass / AbbrevFirst).   *)
 EXTENDS StubRoundTrip, Json, IOUtils, TLCExt
 
 Cases == JsonDeserialize(IOEnv.TRACE_FILE)
